@@ -35,12 +35,15 @@ ITEMS = {
     # an item whose formatting REMOVES lines, and an item written with leading blanks
     "H": ["fn  h(", ")", "{", "}"],
     "I": ["  struct  I   ;"],
+    # a line of a string literal that ends in blanks (reported only under error_on_unformatted,
+    # and only when selected)
+    "T": ["const  T:&str=\"x   ", "y\" ;"],
 }
 # lines written before the item that are not part of its own span (outer attributes)
 PRE = {"V": ["#[cfg(unix)]"], "S": ["#[rustfmt::skip::macros(qq)]"]}
 SEQS = [["A", "C", "D"], ["E", "B", "C"], ["C"], ["A", "B", "C", "D"], ["D", "C", "A"], ["B", "A"],
         ["U", "W", "A"], ["V", "U", "W"], ["W", "V", "D"], ["X", "U", "W"], ["S", "Q"], ["A", "S", "Q", "D"],
-        ["H", "I", "A"], ["A", "H", "I", "D"]]
+        ["H", "I", "A"], ["A", "H", "I", "D"], ["T"], ["T", "A"]]
 
 
 def build_source(seq, gap):
@@ -106,6 +109,8 @@ def run_one(t):
     env = core.run_env({"HOME": str(d)})
     common = ["--unstable-features", "--config", "error_on_line_overflow=true", "--file-lines", js] \
         + extra
+    if "const  T:&str" in src:
+        common += ["--config", "error_on_unformatted=true"]
     if mode == "child":
         r = subprocess.run([rustfmt] + common + ["--emit", "stdout", str(d / "lib.rs")],
                            cwd=d, env=env, capture_output=True, text=True, timeout=60)
@@ -287,8 +292,9 @@ def run(tier, seed, replay=None):
             for k, (it, lo, hi) in enumerate(sp):
                 if it != "I":
                     continue
-                before = (sp[k - 1][2] + 1 if k else 1, lo - 1)
-                after = (hi + 1, sp[k + 1][1] - 1 if k + 1 < len(sp) else hi + 1)
+                # the blank run next to the item, at least the line directly before / after it
+                before = (min(sp[k - 1][2] + 1 if k else 1, lo - 1), lo - 1)
+                after = (hi + 1, max(sp[k + 1][1] - 1 if k + 1 < len(sp) else hi + 1, hi + 1))
                 for (g0, g1) in (before, after):
                     if g0 <= g1 and any(a <= g1 and g0 <= b for (a, b) in g["sel"]):
                         adj = True
